@@ -331,42 +331,114 @@ def run(ctx) -> list[Inst]:
                           msg='asset names are never recorded in asset_names', file=rel,
                           line=f.node.lineno, props=props_d))
     for (snode, call) in adds:
-        # clean edges: branch of a membership test of asset.name in asset_names meaning "not in"
-        clean = set()       # (node idx, label)
-        for n in cfg.nodes:
+        # the value that ends up in asset_names is followed backwards: through `asset.name = <local>` and
+        # `<local> = <local>` copies; a membership test of the followed expression in asset_names whose
+        # "not in" branch is taken ends the search on that path (tested); any other definition is untested
+        def tests_of(n):
+            """-> {tracked text: label of the 'not in asset_names' branch} for an if / while node"""
+            out = {}
             if n.kind not in ('if', 'while'):
-                continue
-            test = n.ast.test
+                return out
+            t = n.ast.test
             neg = False
-            t = test
             if isinstance(t, ast.UnaryOp) and isinstance(t.op, ast.Not):
                 neg, t = True, t.operand
             if isinstance(t, ast.Compare) and len(t.ops) == 1 and isinstance(t.ops[0], (ast.In, ast.NotIn)) \
-                    and isinstance(t.comparators[0], ast.Attribute) and t.comparators[0].attr == 'asset_names' \
-                    and isinstance(t.left, ast.Attribute) and t.left.attr == 'name' \
-                    and R.value_id(t.left.value, n) == ('param', 'asset'):
+                    and isinstance(t.comparators[0], ast.Attribute) and t.comparators[0].attr == 'asset_names':
                 is_in = isinstance(t.ops[0], ast.In) != neg
-                clean.add((n.idx, 'F' if is_in else 'T'))
-        # backward search from the add: which definitions reach it untested?
+                lab = 'F' if is_in else 'T'
+                if isinstance(t.left, ast.Attribute) and t.left.attr == 'name' \
+                        and R.value_id(t.left.value, n) == ('param', 'asset'):
+                    out['asset.name'] = lab
+                elif isinstance(t.left, ast.Name):
+                    out[t.left.id] = lab
+            return out
+
+        def local_def(p, tracked):
+            """assignment node p defines the tracked local: -> new tracked text / 'BAD' / None (not a def)"""
+            if p.kind != 'stmt' or not isinstance(p.ast, ast.Assign) or len(p.ast.targets) != 1:
+                return None
+            tg = p.ast.targets[0]
+            if isinstance(tg, ast.Name) and tg.id == tracked:
+                v = p.ast.value
+                if isinstance(v, ast.Name):
+                    return v.id
+                if isinstance(v, ast.Attribute) and v.attr == 'name' and isinstance(v.value, ast.Name) \
+                        and v.value.id == 'asset':
+                    return 'asset.name'
+                if isinstance(v, ast.Constant) and v.value is None:
+                    return 'NONE'       # "keep the name": never stored (guarded by `is not None`)
+                return 'BAD'
+            return None
+
+        def none_test(p):
+            """`if v is None` / `if v is not None` -> (v, label of the branch on which v IS None)"""
+            if p.kind not in ('if', 'while'):
+                return None
+            t = p.ast.test
+            if isinstance(t, ast.Compare) and len(t.ops) == 1 and isinstance(t.left, ast.Name) \
+                    and isinstance(t.comparators[0], ast.Constant) and t.comparators[0].value is None:
+                if isinstance(t.ops[0], (ast.Is, ast.Eq)):
+                    return t.left.id, 'T'
+                if isinstance(t.ops[0], (ast.IsNot, ast.NotEq)):
+                    return t.left.id, 'F'
+            return None
+
         bad = []
         seen = set()
-        st = [snode]
+        st = [(snode, 'asset.name', frozenset())]
         while st:
-            x = st.pop()
+            x, tracked, nones = st.pop()
             for p in x.pred:
                 labs = [l for t, l in p.succ if t is x]
-                if all((p.idx, l) in clean for l in labs):
+                tmap = tests_of(p)
+                if tracked in tmap and all(l == tmap[tracked] for l in labs):
                     continue
-                if p.idx in anodes:
-                    bad.append(anodes[p.idx])
-                    continue
+                # correlation through "x is None": walking back over the None-branch of a test of v means v is
+                # None on this path; an assignment of something that cannot be None to v contradicts it
+                nn = nones
+                ntst = none_test(p)
+                if ntst is not None and len(labs) == 1:
+                    v_, none_lab = ntst
+                    if labs[0] == none_lab:
+                        nn = nones | {v_}
+                if p.kind == 'stmt' and isinstance(p.ast, ast.Assign) and len(p.ast.targets) == 1 \
+                        and isinstance(p.ast.targets[0], ast.Name) and p.ast.targets[0].id in nn:
+                    val = p.ast.value
+                    if isinstance(val, ast.Constant) and val.value is None:
+                        nn = nn - {p.ast.targets[0].id}
+                    elif isinstance(val, ast.Name):
+                        nn = (nn - {p.ast.targets[0].id}) | {val.id}
+                    else:
+                        continue        # infeasible: v was assigned a non-None value but is None later
+                nones_next = nn
+                nxt = tracked
+                if tracked == 'asset.name' and p.idx in anodes:
+                    rhs = anodes[p.idx][2].value if isinstance(anodes[p.idx][2], ast.Assign) else None
+                    if isinstance(rhs, ast.Name):
+                        nxt = rhs.id            # follow the local the name was taken from
+                    else:
+                        bad.append(anodes[p.idx])
+                        continue
+                elif tracked != 'asset.name':
+                    d = local_def(p, tracked)
+                    if d == 'BAD':
+                        # a freshly computed candidate: fine only if a test of it follows - it did not (we came
+                        # from the use without meeting one)
+                        bad.append((p, None, p.ast))
+                        continue
+                    if d == 'NONE':
+                        continue
+                    if d is not None:
+                        nxt = d
                 if p is cfg.entry:
-                    bad.append(None)
+                    if nxt == 'asset.name':
+                        bad.append(None)
                     continue
-                if p.idx in seen:
+                if (p.idx, nxt, nones_next) in seen:
                     continue
-                seen.add(p.idx)
-                st.append(p)
+                seen.add((p.idx, nxt, nones_next))
+                st.append((p, nxt, nones_next))
         # raising branches do not reach the add: prune definitions whose only way is through raise
         if not bad:
             insts.append(Inst(RULE, f.short, construct_d, 'ok', file=rel, line=call.lineno,
